@@ -81,6 +81,8 @@ type Net struct {
 
 	Dgrams  []*Dgram
 	Streams []*StreamTap
+	// Conns are the client-side ends of all stream connections dialled so far.
+	Conns []*Conn
 	// OnDgram is called after the fate of a datagram is decided.
 	OnDgram func(d *Dgram)
 	// BlackholeFrom, when non-zero, silently discards every datagram sent at or after
@@ -378,6 +380,7 @@ func (d Dialer) DialContext(ctx context.Context, network, address string) (net.C
 	s := &Conn{n: d.N, id: id, rd: c2s, wr: s2c, local: a, remot: la}
 	c.peer, s.peer = s, c
 	l.q = append(l.q, s)
+	d.N.Conns = append(d.N.Conns, c)
 	if d.OnConn != nil {
 		d.OnConn(c)
 	}
